@@ -159,8 +159,10 @@ Definition create_merge (bs : list binfo) (cs : list cinfo) (mode : rmode) (al :
     if negb (forallb (fun b => alignment_eqb (bi_alignment b) al') bs) then CErr EMergeAlignment
     else COk {| ca_design := fold_left (fun d b => add_new d (bi_design b)) bs [];
                 ca_crossings := flat_map bi_crossings bs;
-                ca_sustains := flat_map bi_sustains bs;
-                ca_weights := flat_map bi_weights bs;
+                (* only the entries that belong to actual crossings: a block without crossings
+                   keeps a placeholder count and weight (/repo commit c5d7328) *)
+                ca_sustains := flat_map (fun b => firstn (length (bi_crossings b)) (bi_sustains b)) bs;
+                ca_weights := flat_map (fun b => firstn (length (bi_crossings b)) (bi_weights b)) bs;
                 ca_constraints := own cs ++ from_blocks 0 bs;
                 ca_rcc := forallb bi_rcc bs;
                 ca_mode := mode; ca_alignment := al' |}
@@ -186,8 +188,11 @@ Definition create_nest (outer inner : binfo) (cs : list cinfo) (al : option alig
       | Some oc =>
         COk {| ca_design := add_new (bi_design outer) (bi_design inner);
                ca_crossings := bi_crossings outer ++ bi_crossings inner;
-               ca_sustains := map (fun sc => inner_len * sc) (bi_sustains outer) ++ bi_sustains inner;
-               ca_weights := bi_weights outer ++ bi_weights inner;
+               (* [:len(crossings)] as in Merge (/repo commit c5d7328) *)
+               ca_sustains := map (fun sc => inner_len * sc) (firstn (length (bi_crossings outer)) (bi_sustains outer))
+                              ++ firstn (length (bi_crossings inner)) (bi_sustains inner);
+               ca_weights := firstn (length (bi_crossings outer)) (bi_weights outer)
+                             ++ firstn (length (bi_crossings inner)) (bi_weights inner);
                ca_constraints := oc ++ from_block 1 inner ++ own cs;
                ca_rcc := bi_rcc outer && bi_rcc inner;
                ca_mode := MRepeat; ca_alignment := a |}
